@@ -1,27 +1,25 @@
-"""Registry of harness binaries (TARGETS) and per-property sub-checks (PROPS).
+"""Registry of harness binaries (TARGETS), per-property sub-checks (PROPS) and MANIFEST texts (META).
 
-TARGETS[name] = {src (relative to harness/), variant: asan|tsan|plain, engine: rc|fuzz|plain, libs: [modules]}
-PROPS[id] = {subchecks: [{target, sub, quick: {...}, thorough: {...}}], assumptions: [...]}
- rc tiers:   cases (per worker), max_size, workers
- fuzz tiers: runs (per worker), max_len, workers
+Every property directory harness/Cxx/ contributes a fragment harness/Cxx/reg.py that defines
+  TARGETS = {name: {src (relative to harness/), variant: asan|tsan|plain, engine: rc|fuzz|plain, libs: [modules],
+                    cxxflags?, ldflags?}}
+  PROP    = {subchecks: [{target, sub, quick: {...}, thorough: {...}, env?, dict?}], assumptions: [...]}
+            rc tiers:   cases (per worker), max_size, workers, case_alarm?
+            fuzz tiers: runs (per worker), max_len, workers, unit_timeout?
+  META    = {design_ref, technique, level_text, level_note}
 """
+import glob, importlib.util, os
 
-TARGETS = {
-    "c07_buffer_rc":   {"src": "C07/buffer.cpp", "variant": "asan", "engine": "rc",   "libs": ["util", "base"]},
-    "c07_buffer_fuzz": {"src": "C07/buffer.cpp", "variant": "asan", "engine": "fuzz", "libs": ["util", "base"]},
-}
-
-PROPS = {
-    "C07": {
-        "subchecks": [
-            {"target": "c07_buffer_rc", "sub": "buffer",
-             "quick": {"cases": 5000, "max_size": 120, "workers": 4},
-             "thorough": {"cases": 150000, "max_size": 300, "workers": 14}},
-            {"target": "c07_buffer_fuzz", "sub": "buffer",
-             "quick": {"runs": 150000, "max_len": 600, "workers": 2},
-             "thorough": {"runs": 20000000, "max_len": 2000, "workers": 2}},
-        ],
-        "assumptions": ["memcpy(dst, nullptr, 0) (formally UB) is not flagged: no listed property claims UB-freedom",
-                        "hasWritten() beyond writableSize() is clamped as the header documents"],
-    },
-}
+TARGETS, PROPS, META = {}, {}, {}
+_here = os.path.dirname(os.path.abspath(__file__))
+for _p in sorted(glob.glob(os.path.join(_here, "C[0-9][0-9]", "reg.py"))):
+    _pid = os.path.basename(os.path.dirname(_p))
+    _spec = importlib.util.spec_from_file_location("reg_" + _pid, _p)
+    _m = importlib.util.module_from_spec(_spec)
+    _spec.loader.exec_module(_m)
+    for _k, _v in _m.TARGETS.items():
+        assert _k not in TARGETS, "duplicate target " + _k
+        TARGETS[_k] = _v
+    if getattr(_m, "ENABLED", True):
+        PROPS[_pid] = _m.PROP
+        META[_pid] = _m.META
